@@ -15,11 +15,15 @@ RULE = (
     "Every chain over the 8 aliquot components of length 1..4 (quick) / 1..5 (thorough) plus ALL, crossed with all 30 "
     "depth configurations (qq_depth_min 1..3 x qq_depth_max None|min..4 x break_halves, and qq_depth 1..3 x break_halves), "
     "is enumerated exhaustively; chains of length 5..7 and redundant combinations (qq_depth together with min/max) are "
-    "drawn by Hypothesis. Oracle = exact rectangle geometry computed from the original chain. Non-trivial: chain of "
+    "drawn by Hypothesis; a third sub-check delivers the depth settings through every route (parse keywords alone or over a contrary configuration, "
+    "re-configuration or attribute assignment on a Tract parsed before, a second parse of the same object, PLSSDesc config / keywords / assigned config, "
+    "parse_tracts keywords / config) with the chain written in symbols, '/2 /4', the library's own fraction-free form or words. "
+    "Oracle = exact rectangle geometry computed from the original chain. Non-trivial: chain of "
     "length >= 2 containing a half, or a non-default depth configuration. Distinct = distinct (chain, configuration)."
 )
 ASSUMPTIONS = [
-    "Chains are written in the canonical symbol spelling (spelling variation is C07).",
+    "The exhaustive grid writes chains in the canonical symbol spelling (spelling variation is C07); the routes sub-check uses four spellings.",
+    "When a configuration is replaced by another one, the new one names every setting the old one named (a config text only changes the settings it names).",
     "qq_depth_max < qq_depth_min is never generated (documented as unsupported).",
 ]
 
@@ -104,49 +108,46 @@ def classes(c):
     return out
 
 
-def oracle(c):
-    chain, cfg = c["chain"], c["cfg"]
-    text = "ALL" if chain == ["ALL"] else aq.canonical_text(chain)
+def check_pieces(pieces, whole, chain, cfg, text, label):
     mn, mx = effective(cfg)
-    t = Tract(text, parse_qq=True, config=config_text(cfg))
-    pieces = list(t.qqs)
     fails = []
     real_chain = [] if chain == ["ALL"] else chain
     region = aq.chain_rect(real_chain, mx)
-    ctx = dict(text=text, config=config_text(cfg), qqs=pieces)
+    ctx = dict(text=text, config=config_text(cfg), qqs=pieces, route=label)
+    where = f"{text!r} [{config_text(cfg)}]" + (f" via {label}" if label else "")
     if not pieces:
-        return [Failure("no_pieces", f"{text!r} [{config_text(cfg)}] produced no aliquots", **ctx)]
+        return [Failure("no_pieces", f"{where} produced no aliquots", **ctx)]
     rects = []
     for p in pieces:
         toks = aq.piece_tokens(p)
         if toks is None:
-            return [Failure("bad_piece", f"piece {p!r} of {text!r} is not an aliquot string", **ctx)]
+            return [Failure("bad_piece", f"piece {p!r} of {where} is not an aliquot string", **ctx)]
         if len(toks) < mn or any(tk not in aq.QUARTERS for tk in toks[-mn:]):
-            fails.append(Failure("min_depth", f"piece {p!r} of {text!r} [{config_text(cfg)}] is not divided to depth {mn}", **ctx))
+            fails.append(Failure("min_depth", f"piece {p!r} of {where} is not divided to depth {mn}", **ctx))
         if mx is not None and len(toks) > mx:
-            fails.append(Failure("max_depth", f"piece {p!r} of {text!r} [{config_text(cfg)}] is deeper than {mx}", **ctx))
+            fails.append(Failure("max_depth", f"piece {p!r} of {where} is deeper than {mx}", **ctx))
         if cfg["bh"] and any(tk in aq.HALVES for tk in toks):
-            fails.append(Failure("break_halves", f"piece {p!r} of {text!r} contains a half under break_halves", **ctx))
+            fails.append(Failure("break_halves", f"piece {p!r} of {where} contains a half under break_halves", **ctx))
         r = aq.chain_rect(toks)
         if not aq.inside(r, region):
-            fails.append(Failure("outside", f"piece {p!r} of {text!r} [{config_text(cfg)}] lies outside the described area", **ctx))
+            fails.append(Failure("outside", f"piece {p!r} of {where} lies outside the described area", **ctx))
         rects.append(r)
     if len(rects) <= 300:
         for i in range(len(rects)):
             for j in range(i + 1, len(rects)):
                 if aq.overlap(rects[i], rects[j]):
-                    fails.append(Failure("overlap", f"pieces {pieces[i]!r} and {pieces[j]!r} of {text!r} overlap", **ctx))
+                    fails.append(Failure("overlap", f"pieces {pieces[i]!r} and {pieces[j]!r} of {where} overlap", **ctx))
                     break
             else:
                 continue
             break
     total = sum(aq.area(r) for r in rects)
     if total != aq.area(region):
-        fails.append(Failure("area", f"{text!r} [{config_text(cfg)}]: pieces cover {total} of the section, described area is {aq.area(region)}", **ctx))
+        fails.append(Failure("area", f"{where}: pieces cover {total} of the section, described area is {aq.area(region)}", **ctx))
     # aliquots_whole mirrors the chain as written
     want_whole = ["ALL"] if chain == ["ALL"] else [aq.frac_free(chain)]
-    if chain != ["ALL"] and list(t.aliquots_whole) != want_whole:
-        fails.append(Failure("aliquots_whole", f"aliquots_whole {t.aliquots_whole!r} != {want_whole!r}", **ctx))
+    if chain != ["ALL"] and whole is not None and list(whole) != want_whole:
+        fails.append(Failure("aliquots_whole", f"{where}: aliquots_whole {whole!r} != {want_whole!r}", **ctx))
     # dedupe by signature
     seen, out = set(), []
     for f in fails:
@@ -154,6 +155,130 @@ def oracle(c):
             seen.add(f.sig)
             out.append(f)
     return out
+
+
+def oracle(c):
+    chain, cfg = c["chain"], c["cfg"]
+    text = "ALL" if chain == ["ALL"] else aq.canonical_text(chain)
+    t = Tract(text, parse_qq=True, config=config_text(cfg))
+    return check_pieces(list(t.qqs), list(t.aliquots_whole), chain, cfg, text, "")
+
+
+# the same settings through every route by which they can reach the aliquot parser -----------------------------------------
+# (keyword over a contrary configuration, re-configuration of an object that was parsed before, PLSSDesc hand-down)
+
+ROUTES = ["tract_kw", "tract_kw_over_config", "tract_reconfigured", "tract_attributes", "plss_config", "plss_kw_over_config", "plss_config_assigned",
+          "parse_tracts_kw", "parse_tracts_config", "tract_reparsed_same_object"]
+SPELL = ["glyph", "slash", "fracfree", "words"]
+
+
+def other_values(cfg, k):
+    """A configuration that names the same settings as cfg with other values (so that cfg, applied afterwards, overrides all of it)."""
+    out = dict(cfg)
+    if cfg["depth"] is not None:
+        out["depth"] = (cfg["depth"] + k) % 3 + 1
+    else:
+        out["min"] = (cfg["min"] + k) % 3 + 1
+        if cfg["max"] is not None:
+            out["max"] = max(out["min"], (cfg["max"] + k) % 4 + 1)
+    out["bh"] = not cfg["bh"]
+    return out
+
+
+def explicit_text(cfg):
+    """Like config_text, but break_halves is always restated."""
+    t = config_text(dict(cfg, bh=False))
+    return ",".join(x for x in (t, f"break_halves.{bool(cfg['bh'])}") if x)
+
+
+def kwargs_of(cfg):
+    kw = {"break_halves": bool(cfg["bh"])}
+    if cfg["depth"] is not None:
+        kw["qq_depth"] = cfg["depth"]
+    else:
+        kw["qq_depth_min"] = cfg["min"]
+        if cfg["max"] is not None:
+            kw["qq_depth_max"] = cfg["max"]
+    return kw
+
+
+def spell_chain(chain, how):
+    if how == "slash":
+        return "".join(c + ("/2" if c in aq.HALVES else "/4") for c in chain)
+    if how == "fracfree":
+        # the library's own fraction-free form ('N2NENE'): bare quarters are read as such in a run that directly follows a half
+        k = 0
+        while k < len(chain) and chain[k] in aq.HALVES:
+            k += 1
+        if k >= 1 and all(x in aq.QUARTERS for x in chain[k:]):
+            return aq.frac_free(chain)
+        return aq.canonical_text(chain)
+    if how == "words":
+        names = {"N": "North Half", "S": "South Half", "E": "East Half", "W": "West Half", "NE": "Northeast Quarter", "NW": "Northwest Quarter",
+                 "SE": "Southeast Quarter", "SW": "Southwest Quarter"}
+        return " of the ".join(names[c] for c in chain)
+    return aq.canonical_text(chain)
+
+
+ROUTE_CASE = st.fixed_dictionaries({
+    "chain": aq.chain_strategy(1, 4), "cfg": st.sampled_from(depth_configs()), "route": st.sampled_from(ROUTES), "spell": st.sampled_from(SPELL),
+    "k": st.integers(0, 2),
+})
+
+
+def oracle_routes(c):
+    from pytrs import PLSSDesc
+    chain, cfg, route = c["chain"], c["cfg"], c["route"]
+    text = spell_chain(chain, c["spell"])
+    prior = other_values(cfg, c["k"])
+    if c["k"] == 2 and route in ("tract_kw_over_config", "plss_kw_over_config", "parse_tracts_kw", "tract_reparsed_same_object"):
+        # the configuration underneath names the *other* kind of depth setting: an exact depth under min/max keywords and vice versa
+        if cfg["depth"] is None:
+            prior = {"min": None, "max": None, "depth": cfg["min"] % 3 + 1, "bh": not cfg["bh"]}
+        else:
+            prior = {"min": cfg["depth"] % 3 + 1, "max": 4, "depth": None, "bh": not cfg["bh"]}
+    kw = kwargs_of(cfg)
+    full = f"T154N-R97W Sec 14: {text}"
+    whole = None
+    if route == "tract_kw":
+        t = Tract(text)
+        t.parse(**kw)
+    elif route == "tract_kw_over_config":
+        t = Tract(text, config=explicit_text(prior))
+        t.parse(**kw)
+    elif route == "tract_reconfigured":
+        t = Tract(text, parse_qq=True, config=explicit_text(prior))
+        t.config = explicit_text(cfg)
+        t.parse()
+    elif route == "tract_attributes":
+        t = Tract(text, parse_qq=True, config=explicit_text(prior))
+        t.qq_depth_min, t.qq_depth_max, t.qq_depth, t.break_halves = (cfg["min"] if cfg["min"] is not None else 2), cfg["max"], cfg["depth"], bool(cfg["bh"])
+        t.parse()
+    elif route == "tract_reparsed_same_object":
+        t = Tract(text, parse_qq=True, config=explicit_text(prior))
+        t.parse(**kwargs_of(prior))
+        t.parse(**kw)
+    elif route == "plss_config":
+        d = PLSSDesc(full, config="parse_qq," + explicit_text(cfg))
+        t = d.tracts[0]
+    elif route == "plss_kw_over_config":
+        d = PLSSDesc(full, config="parse_qq," + explicit_text(prior), wait_to_parse=True)
+        d.parse(**kw)
+        t = d.tracts[0]
+    elif route == "plss_config_assigned":
+        d = PLSSDesc(full, config="parse_qq," + explicit_text(prior))
+        d.config = "parse_qq," + explicit_text(cfg)
+        d.parse()
+        t = d.tracts[0]
+    elif route == "parse_tracts_kw":
+        d = PLSSDesc(full, config="parse_qq," + explicit_text(prior))
+        d.parse_tracts(**kw)
+        t = d.tracts[0]
+    else:
+        d = PLSSDesc(full, config="parse_qq," + explicit_text(prior))
+        d.parse_tracts(config=explicit_text(cfg))
+        t = d.tracts[0]
+    return check_pieces(list(t.qqs), list(t.aliquots_whole), chain, cfg, text, route)
 
 
 def render(c):
@@ -166,4 +291,9 @@ SUBS = [
         essential=("same_axis_pair", "cross_axis_pair", "quarter_of_half", "ew_smallest", "has_max", "break_halves")),
     Sub("long", oracle, strategy=random_cases, nontrivial=nontrivial, classes=classes, render=render,
         n={"quick": 500, "thorough": 4000}, shards={"quick": 4, "thorough": 16}),
+    Sub("routes", oracle_routes, strategy=lambda tier: ROUTE_CASE, nontrivial=nontrivial,
+        classes=lambda c: classes(c) + [f"route={c['route']}", f"spell={c['spell']}"] + (["other_kind_of_depth_underneath"] if c["k"] == 2 else []),
+        render=lambda c: {"text": spell_chain(c["chain"], c["spell"]), "config": config_text(c["cfg"]), "route": c["route"], "before": config_text(other_values(c["cfg"], c["k"]))},
+        n={"quick": 1500, "thorough": 20000}, shards={"quick": 8, "thorough": 16},
+        essential=tuple(f"route={r}" for r in ROUTES) + tuple(f"spell={x}" for x in SPELL)),
 ]
